@@ -157,12 +157,13 @@ def observe(lang, text, profile="basic"):
     if "Vec<u8>" in t.get("type_mappings", {}):
         # read from the alias Digest = Vec<u8>; a target with a custom JSON translation counts as applied when the helpers are there too
         dg = [d for d in o["defs"] if d["name"] == "Digest"]
-        name = (dg[0].get("target") or {}).get("n") if dg else None
+        name = ((dg[0].get("target") or {}).get("n") if dg else None) or "<not applied>"
         helpers = {"ReviverFunc", "ReplacerFunc"} <= set(o.get("helper_defs", [])) | {d["name"] for d in o["defs"]} and ("new " + str(name)) in texts[0]
         tobs["type_mappings"]["Vec<u8>"] = name if helpers else f"{name} (without its reviver / replacer helpers)"
     if "HashMap<String,String>" in t.get("type_mappings", {}):
         lm = [d for d in o["defs"] if d["name"] == "LabelMap"]
-        tobs["type_mappings"]["HashMap<String,String>"] = (lm[0].get("target") or {}).get("n") if lm else None
+        tgt = (lm[0].get("target") or {}) if lm else {}
+        tobs["type_mappings"]["HashMap<String,String>"] = tgt.get("n") or f"<not applied: the alias target is a {tgt.get('k', 'missing definition')}>"
     if lang == "swift":
         obs["swift_prefix"] = prefix_as_used(o, foo["name"][:-3], {"CodableVoid"} | set(t.get("type_mappings", {}).values()))
         gen = [d for d in o["defs"] if d["name"].endswith("Gen")][0]
